@@ -82,6 +82,23 @@ func c10HTTPCases(hasKerberos bool) []rawCase {
 	}
 	add("authorization/8k", BuildRequest("RDG_OUT_DATA", gwp, []string{"Authorization: NTLM " + strings.Repeat("A", 8000)}))
 	add("authorization/nul", BuildRequest("RDG_OUT_DATA", gwp, []string{"Authorization: NTLM \x00\x01"}))
+	// bytes that are not UTF-8, Latin-1 text, control bytes: in the scheme word, right after it, in the payload, and
+	// in every other header the gateway looks at
+	for _, word := range []string{"NTLM", "Negotiate", "Basic"} {
+		for _, junk := range []string{"\xff\xfe", "\xc3", "\xc3 x", "\xe9t\xe9", "\x80 AAAA", " \xff\xfe\xfd", " \xc3\x28", "\t\x01", "\xed\xa0\x80 x", "\xf8\x88\x80\x80\x80"} {
+			add(fmt.Sprintf("authorization/non-utf8/%s%x", word, junk), BuildRequest("RDG_OUT_DATA", gwp, append([]string{"Authorization: " + word + junk}, wsH...)))
+		}
+		add("authorization/non-utf8/in/"+word, BuildRequest("RDG_IN_DATA", gwp, []string{"Rdg-Connection-Id: x", "Authorization: " + word + "\xff\xfe", "Content-Length: 0"}))
+	}
+	for _, hn := range []string{"Rdg-Connection-Id", "X-Forwarded-For", "Cookie", "User-Agent", "Sec-WebSocket-Key", "Sec-WebSocket-Protocol", "Origin", "Rdg-User-Id", "Accept-Language"} {
+		for _, junk := range []string{"\xff\xfe", "a\xc3", "\xe9t\xe9=\xe9", "RDPGWSESSION=\xff\xfe"} {
+			add(fmt.Sprintf("header/non-utf8/%s/%x", hn, junk), BuildRequest("RDG_OUT_DATA", gwp, append([]string{hn + ": " + junk}, wsH...)))
+			add(fmt.Sprintf("header/non-utf8/connect/%s/%x", hn, junk), BuildRequest("GET", "/connect", []string{hn + ": " + junk}))
+		}
+	}
+	add("query/non-utf8", BuildRequest("GET", "/connect?host=%ff%fe&x=\xff", nil))
+	add("query/non-utf8-tokeninfo", BuildRequest("GET", "/tokeninfo?access_token=%ff%fe.%c3.%28", nil))
+	add("query/non-utf8-callback", BuildRequest("GET", "/callback?state=%ff%fe&code=%c3%28", nil))
 	// websocket upgrade header shapes
 	for drop := 0; drop < len(wsH); drop++ {
 		h := append(append([]string{}, wsH[:drop]...), wsH[drop+1:]...)
